@@ -94,6 +94,7 @@ def run(ctx):
     ctx.coverage["fault_traces_validated"] = nf
     # TwoWriters.tla: serialised operations never yield two files for one user or a stray empty reservation (MC_TwoWriters_serial),
     # unserialised ones do (refuted variants); every pair of operations run one after the other by two real processes
+    ctx.coverage["overtaken_writer_runs"] = fsfam.overtaken_writer_runs(ctx, drv, bl, prop="C16", only_admin=True)
     tw = [o for o in fsfam.two_writers_model(ctx, thorough) if o["cut"] in ("statA", "done")]
     fsfam.two_writer_runs(ctx, drv, tw, {"torn": "C16", "loser": "C15", "others": "C15", "seq": "C16", "crash": "C16"})
     ctx.coverage["cli_runs"] = cli_leg(ctx)
